@@ -41,6 +41,9 @@ type Opts struct {
 	Features compile.FeaturesChecker
 	Filter   compile.SchemaFilter
 	Separate bool // parse every module with its own interners
+	// SkipUnknown: the compiler option that tolerates references into modules that are not loaded (imports of absent
+	// modules, their types and extensions).  It tolerates nothing else: a prefix no import binds is still an error.
+	SkipUnknown bool
 }
 
 // CompileTexts parses the named texts and compiles them.
@@ -81,7 +84,7 @@ func CompileTexts(names []string, texts []string, o Opts) (res Result) {
 		if feats == nil {
 			feats = compile.FeaturesFromNames(true)
 		}
-		ms, err := compile.CompileParseTrees(nil, trees, feats, false, o.Filter)
+		ms, err := compile.CompileParseTrees(nil, trees, feats, o.SkipUnknown, o.Filter)
 		r.MS, r.Err = ms, err
 	}()
 	select {
